@@ -114,3 +114,25 @@ def marker_block(which, prop="C03"):
                                          STR_OF(buf(v1)[z3.Length(buf(v0))]) == rewritten(v0), z3.SubSeq(buf(v1), 0, z3.Length(buf(v0))) == buf(v0)))
     c.raises("inline_use_of_a_preceding_or_alternate_marker_is_rejected", lambda v0, exc, v1: z3.And(z3.BoolVal(exc in ("ValueError", "RuntimeError")), inline(v0)))
     return c
+
+
+def pass_back(prop="C02"):
+    """FortranReader.pass_back(line): the statement handed back is the *next* one returned - it goes in front of everything still pending (the remaining
+    `;`-separated statements of the current line), and nothing else changes.  FortranReader.__next__ pops from the front (`self.pending.pop(0)`)."""
+    c = Contract("ford.reader", "FortranReader.pass_back", prop)
+    c.fields = {"pending": "list:str"}
+    c.param("self", TRef("FortranReader"))
+    c.param("line", TStr())
+
+    def setup(eng, path):
+        eng.field_array(path, "pending")
+        path.heap._lmap("str")
+    c.extra_setup.append(setup)
+    pid = lambda v: z3.Select(v._e.field_array(v._p, "pending"), v.self)
+    pend = lambda v: v.heap.list_get(SList(pid(v), "str"))
+    c.requires("pending_is_a_list", lambda v: z3.And(pid(v) > 0, pid(v) < v.heap.alloc0))
+    c.ensures("handed_back_line_is_first_and_the_rest_keeps_its_order",
+              lambda v0, res, v1: z3.And(pid(v1) == pid(v0), z3.Length(pend(v1)) == z3.Length(pend(v0)) + 1, STR_OF(pend(v1)[0]) == v0.line,
+                                         z3.SubSeq(pend(v1), 1, z3.Length(pend(v0))) == pend(v0)))
+    c.no_raise = True
+    return c
